@@ -157,7 +157,7 @@ def _worker(args):
                               meta={k: x for k, x in m.items() if k not in ('violations', 'valid_flags')}))
     dist = Counter()
     for m in r['metas'].values():
-        for k in ('variant', 'autos', 'mode', 'boards', 'rake', 'n', 'style', 'antes', 'blinds', 'stacks'):
+        for k in ('variant', 'autos', 'mode', 'boards', 'rake', 'n', 'style', 'antes', 'blinds', 'stacks', 'director'):
             dist[f'{k}={m.get(k)}'] += 1
         dist['terminal' if m.get('terminal') else 'unfinished'] += 1
     nontrivial = sum(1 for m in r['metas'].values() if m.get('nlog', 0) >= 8)
@@ -175,16 +175,23 @@ def _worker(args):
 
 
 def correspondence(seed: int, count: int, monitor_names, variant=None, profile=None, jobs=None,
-                   tag='c', chunk=40):
+                   tag='c', chunk=40, directed=None):
     jobs = jobs or min(16, os.cpu_count() or 4)
     base = seed * 1000003
     seeds = [base + i for i in range(count)]
     chunks = [seeds[i:i + chunk] for i in range(0, len(seeds), chunk)]
     args = [(c, f'{tag}{i}', variant, profile, list(monitor_names), 2 if i == 0 else 0)
             for i, c in enumerate(chunks)]
+    # directed streams: extra cases (own seed range) steered towards one rare configuration each
+    for k, (name, frac) in enumerate(sorted((directed or {}).items())):
+        dn = max(8, int(count * frac))
+        dseeds = [base + 500000 + 50000 * k + i for i in range(dn)]
+        dprof = dict(profile or {}, _director=name)
+        for j in range(0, dn, chunk):
+            args.append((dseeds[j:j + chunk], f'{tag}{name}{j}', variant, dprof, list(monitor_names), 0))
     tot = dict(cases=0, lines=0, diffs=[], stats=Counter(), dist=Counter(), viols=[], nontrivial=0,
                samples=[], impl_s=0.0, model_s=0.0)
-    if jobs == 1 or len(chunks) == 1:
+    if jobs == 1 or len(args) == 1:
         results = map(_worker, args)
     else:
         ex = ProcessPoolExecutor(max_workers=jobs)
